@@ -178,7 +178,17 @@ pub fn store_scenario(idx: usize, rng: &mut Rng, o: &StoreOpts, family: &str) ->
         if w.dead {
             return w;
         }
-        let bytes = w.reps[wr].save_after(&cursor);
+        // (a panic of the library while saving is an observation, not a failure of the harness: the event below has no
+        // counterpart in Trace_Storage, so the scenario is rejected there)
+        let saved = catch_unwind(AssertUnwindSafe(|| w.reps[wr].save_after(&cursor)));
+        let bytes = match saved {
+            Ok(b) => b,
+            Err(p) => {
+                w.log.push(json!({"ev":"save-panicked","r":wr+1,"call":"save_after","res":panic_msg(p)}));
+                w.dead = true;
+                return w;
+            }
+        };
         if bytes.is_empty() {
             continue;
         }
